@@ -416,7 +416,7 @@ func (ip *Interp) Store(st *State, p *Ptr, t types.Type, v Val) {
 	}
 	st.Heap.set(k, v)
 	if ip.TraceStores {
-		ip.Stores = append(ip.Stores, StoreEvent{Key: k, Obj: p.Obj, Path: p.Path, V: v, Fn: ip.curFn(), Pos: ip.curPos})
+		ip.Stores = append(ip.Stores, StoreEvent{Key: k, Obj: p.Obj, Path: p.Path, V: v, Fn: ip.curFn(), Pos: ip.curPos, GuardL: ip.GuardList(st)})
 	}
 }
 
